@@ -10,6 +10,7 @@ gradient.seed changed the perturbations must differ."""
 from __future__ import annotations
 
 import copy
+import os
 import random
 
 import numpy as np
@@ -237,11 +238,15 @@ def execute(scn: dict) -> dict:
                              "detail": f"gradient.seed {s} and the next seed give identical perturbed rows"})
     # (4) under another PYTHONHASHSEED, in a fresh interpreter (a sample of the runs)
     if scn.get("cross_hash"):
-        d4 = _digest_in_fresh_interpreter(A)
+        # (the other value varies with the scenario: an order that depends on string hashes differs between two given
+        # values only about half of the time)
+        hs = [4242, 1, 99, 31337][A["world"]["wseed"] % 4]
+        d4 = _digest_in_fresh_interpreter(A, hs)
         probe("fresh_interpreter_other_hashseed")
         if d4 != d1:
             viol.append({"clause": "trace-differs-under-other-hashseed", "sig": {"backend": backend},
-                         "detail": f"solo trace digest {d1} in this interpreter, {d4} in a fresh interpreter with PYTHONHASHSEED=4242"})
+                         "detail": f"solo trace digest {d1} in this interpreter (PYTHONHASHSEED={os.environ.get('PYTHONHASHSEED')}), "
+                                   f"{d4} in a fresh interpreter with PYTHONHASHSEED={hs}"})
     key = (oracles.scenario_key(A), len(scn["others"]), H(str(sched.choices[:50])))
     return {
         "violations": _dedupe(viol),
@@ -261,7 +266,7 @@ def solo_digest(A: dict) -> str:
     return harness.trace_digest(_run_solo(A))
 
 
-def _digest_in_fresh_interpreter(A: dict) -> str:
+def _digest_in_fresh_interpreter(A: dict, hashseed: int = 4242) -> str:
     import json
     import os
     import subprocess
@@ -270,7 +275,7 @@ def _digest_in_fresh_interpreter(A: dict) -> str:
 
     root = str(Path(__file__).resolve().parent.parent)
     env = dict(os.environ)
-    env["PYTHONHASHSEED"] = "4242"
+    env["PYTHONHASHSEED"] = str(hashseed)
     code = ("import sys, json; sys.path.insert(0, %r); from checks import c16; "
             "print('DIGEST ' + c16.solo_digest(json.load(sys.stdin)))" % root)
     proc = subprocess.run([sys.executable, "-c", code], input=json.dumps(A), capture_output=True, text=True, env=env, cwd=root, timeout=300)
